@@ -11,5 +11,6 @@ CONSTANTS
   Pool <- MC_Pool
   UdSample <- MC_UdSample
   Foreign <- MC_Foreign
+  Filters = {"none"}
   AddrLists <- MC_FewListsQuick
   FewLists <- MC_FewListsQuick
